@@ -69,3 +69,15 @@ Print Assumptions C11_no_own_where.
 Theorem C11_declarable : forall l x, In x (declarable_lts l) <-> In x l /\ x <> "static"%string /\ x <> "_"%string.
 Proof. exact declarable_spec. Qed.
 Print Assumptions C11_declarable.
+
+(* composed: every lifetime argument of the counterpart path that can be a parameter is declared on the impl; 'static / '_ are declared
+   only if the deriving type's own parameter list names them *)
+Theorem C11_counterpart_lifetimes_declared : forall gens l lt,
+    In lt l -> lt <> "static"%string -> lt <> "_"%string -> In lt (lt_names (add_missing_lts gens (declarable_lts l))).
+Proof. exact counterpart_lifetimes_declared. Qed.
+Print Assumptions C11_counterpart_lifetimes_declared.
+
+Theorem C11_static_never_added : forall gens l lt,
+    (lt = "static"%string \/ lt = "_"%string) -> In lt (lt_names (add_missing_lts gens (declarable_lts l))) -> In lt (lt_names gens).
+Proof. exact static_never_added. Qed.
+Print Assumptions C11_static_never_added.
